@@ -444,6 +444,7 @@ fn main() {
             Ok(j) => j,
             Err(e) => {
                 writeln!(out, "{}", json!({"bad_case": e.to_string()})).unwrap();
+                out.flush().unwrap();
                 continue;
             }
         };
@@ -462,6 +463,8 @@ fn main() {
             }
         };
         writeln!(out, "{}", j).unwrap();
+        // one line per case, visible at once: a crash of the process then loses only the case it crashed on
+        out.flush().unwrap();
     }
     let _ = pos_json(&Position::new(0, 0, 0));
 }
